@@ -43,6 +43,8 @@ func init() {
 			"(multi-key types: no single key field is unique), delivered through FeatureRemote.UpdateData, real reply/notify datagrams (a fifth of the histories) or FeatureLocal.UpdateData/SetData; two identically numbered peers, each history addresses one store. " +
 			"Every sixth update carries a selector that is a conjunction of two to five elements (partial+selector, delete+selector, delete+selector+elements, delete combined with partial): the complete identifier plus one or two further elements the selector type can name, or - delete filters only - any two or three elements (parts of a multi-key identifier, elements outside the identifier); the values are those of one stored item in all elements, or in all but one (an element outside the identifier differs, or an identifier element differs: the value of another stored item or a fresh one), or the stored item lacks a named element; an item matches iff it has every named element with the named value. " +
 			"The data features are Generic ones in even rounds and of the function's own feature type in odd rounds; every store also holds a sentinel list or value in a SECOND function, which no update may move; a delete filter with elements names one to three fields; " +
+			"A third of the full updates (start states included) also list one to three items WITHOUT identifier or - multi-key types - with an incomplete identifier (merges by identifier keep them, selectors naming the complete identifier do not match them); " +
+			"every eighth update is a partial+selector update whose DATA names identifier elements (the selected identifier again, a complete new identifier no stored item holds, or one element of a multi-key identifier with a new value; identifiers stay unique): the matching item takes every element the data mentions. " +
 			"the identifier fields of every list function, the set of list functions and the set of selector types that do not cover the identifier are compared with tables pinned in the check. " +
 			"After every update the stored list is compared with the reference fold, checked for unique identifiers and numeric order, the same function's data of the other stores must not have moved, and the update is applied again (idempotence). " +
 			"A case is non-trivial if at least 100 comparisons were made, every delivery path was used and at least three different shapes (two for the list type without key fields) changed the data; distinct = distinct (function, sequence of (path, shape) of the block).",
@@ -54,6 +56,7 @@ func init() {
 			"the items of a datagram are taken as the receiver decodes them (JSON fidelity is C18's subject)",
 			"selectors naming several elements: only elements for which the item has a single-valued field of the same name and kind are named (not timestampInterval and the like, not elements referring to a list-valued item field); a partial update always names the complete identifier, so 'the matching item' is unique; an item that lacks a named element does not match",
 			"idempotence is not demanded of a delete combined with partial whose merge gives an item exactly the value its own delete selector names for an element outside the identifier (the fold of that update is itself not idempotent; counted not-judged:idempotence...): the second application is compared with the fold of the sequence holding the update twice",
+			"order by numeric identifier is not judged while the list holds an item without complete identifier, nor after a partial+selector update that renumbers the selected item out of its place (the overlay of the statement keeps the item where it is; counted not-judged:order-after-renumbering...); uniqueness is judged for the items with a complete identifier",
 			"a non-persisting update (FeatureRemote.UpdateData with persist=false: the update that follows, or a different one) returns the fold and leaves the store as it was",
 		},
 		Parts: []rig.Part{{
@@ -689,6 +692,7 @@ func c02Case(c *rig.Ctx) {
 			hist = append(hist, "start: empty list")
 		default:
 			u, _ := li.GenUpdate(r, 0, c02Dom)
+			c02AddUnidentified(c, li, &u)
 			c02MaybeShuffle(c, &u)
 			st.set(li.MkList(rig.CloneItems(u.Items)))
 			ref = rig.CloneItems(u.Items)
@@ -726,6 +730,18 @@ func c02Case(c *rig.Ctx) {
 				if cu, x, cok := c02GenConj(c, li, ref); cok {
 					u, cj = cu, x
 				}
+			}
+			// the data of a partial+selector update may name identifier elements as well (every eighth update): the
+			// selected identifier again, a new identifier no stored item holds, one element of a multi-key identifier
+			if cj == nil && r.Intn(8) == 0 {
+				if su, sok := c02GenSelIdent(c, li, ref); sok {
+					u = su
+				}
+			}
+			// a full update may list items without (complete) identifier
+			c02AddUnidentified(c, li, &u)
+			if n := c02CountUnidentified(li, ref); n > 0 && (u.Kind == "partial" || u.Kind == "del+partial" || u.Kind == "del-conj+partial") {
+				c.Count(fmt.Sprintf("merges-by-identifier-into-a-list-holding-items-without-complete-identifier:items=%d", min(n, 3)), 1)
 			}
 			c02WidenElems(c, li, &u)
 			variant := r.Intn(4)
@@ -779,7 +795,14 @@ func c02Case(c *rig.Ctx) {
 
 			othersBefore := st.others()
 			sentinelBefore := sentinel.print(lw)
+			// "ordered before": the fold AND the stored list (the fold appends new identifiers where the store sorts
+			// them in, so once an item has been renumbered by a selector update the two orders may differ)
 			orderedBefore := orderedByNumericId(li, ref)
+			var storeBefore []reflect.Value
+			if orderedBefore || u.Kind == "partial-sel-ident" {
+				storeBefore = st.read()
+				orderedBefore = orderedBefore && orderedByNumericId(li, storeBefore)
+			}
 			ur, errText, ret := st.apply(c, u, cj, variant)
 			if cj != nil {
 				hist = append(hist, st.path+" "+ur.String()+" "+cj.String(li))
@@ -796,6 +819,22 @@ func c02Case(c *rig.Ctx) {
 			ref = c02Ref(li, ref, ur, cj)
 			got := st.read()
 			comparisons++
+			// order by numeric identifier is judged for lists whose items all carry a complete identifier; after a
+			// partial+selector update whose data renumbers the item, if the plain overlay (the item stays in its
+			// place) is itself ordered
+			orderJudged := c02OrderDemanded(u.Kind, orderedBefore)
+			if orderJudged && c02CountUnidentified(li, ref) > 0 {
+				orderJudged = false
+				c.Count("not-judged:order(the-list-holds-items-without-complete-identifier)", 1)
+			}
+			if orderJudged && u.Kind == "partial-sel-ident" && !orderedByNumericId(li, li.RefApply(storeBefore, ur)) {
+				orderJudged = false
+				if orderedByNumericId(li, got) {
+					c.Count("not-judged:order-after-renumbering-selector-update(store-ordered)", 1)
+				} else {
+					c.Count("not-judged:order-after-renumbering-selector-update(store-left-unordered)", 1)
+				}
+			}
 			dev := ""
 			switch {
 			case errText != "":
@@ -804,10 +843,10 @@ func c02Case(c *rig.Ctx) {
 				dev = "content-differs"
 			case duplicateId(li, got) != "":
 				dev = "duplicate-identifier"
-			case c02OrderDemanded(u.Kind, orderedBefore) && !orderedByNumericId(li, got):
+			case orderJudged && !orderedByNumericId(li, got):
 				dev = "not-ordered"
 			}
-			if dev == "" && u.Kind != "full" && !orderedByNumericId(li, got) {
+			if dev == "" && u.Kind != "full" && u.Kind != "partial-sel-ident" && !orderedByNumericId(li, got) {
 				// a selector, identifier-less or delete update applied to a list that an unordered full update
 				// left unordered: the fold keeps the order, nothing re-sorts; counted, not judged
 				c.Count("not-judged:list-left-unordered-by-"+u.Kind+"-after-unordered-full", 1)
@@ -843,7 +882,7 @@ func c02Case(c *rig.Ctx) {
 					dev = repeatDev
 				case duplicateId(li, got) != "":
 					dev = "duplicate-identifier-on-repeat"
-				case c02OrderDemanded(u.Kind, orderedBefore) && !orderedByNumericId(li, got):
+				case orderJudged && !orderedByNumericId(li, got):
 					dev = "not-ordered-on-repeat"
 				}
 			}
